@@ -1,5 +1,6 @@
 import ReplicatProofs.Lemmas.Access
 import ReplicatProofs.Lemmas.RepoAccess
+import ReplicatProofs.Lemmas.CacheCmd
 /-!
 # C06 — access rights follow key relationships
 
@@ -12,9 +13,19 @@ Property theorems only.  Two models:
   repository has one user).  `WF s` = every stored object is what its name says (corruption is C04).
 
 Regular expressions are arbitrary predicates on names.
+
+Clients keep state between commands: the snapshot cache directory (the CLI default; possibly one directory for several keys).
+The last section restates the repository theorems for the cached commands of `CacheCmd.lean` (`loadSnapshots ↦ loadSnapshotsC
+cache`), for EVERY cache content that is hash-ideal (`Agree` / `Ideal`, DESIGN.md §4) — cold, warm from any earlier command of
+the same or another key, stale, torn — and for the cache a snapshot-loading command leaves behind (`cacheAfterLoad`), i.e. for the
+sequence "list / restore / delete first, clean or delete afterwards".  These theorems carry the regenerated flag
+`Gen.cacheVerified = true` (the cached copy is compared with the digest in the name before use) as an explicit decidable
+hypothesis `hv`: it is discharged from `Generated.lean` in `Properties/C18.lean` (`cacheVerified_holds`, whose subject the cache
+code is), so a rewrite of the cache code that the recogniser does not follow alarms there, not here.  What ties the cached theorems to the code is the correspondence run by
+`harness/impl/access.py`: real clients with real cache directories against `CacheCmd.stepC` on the abstracted directory.
 -/
 namespace Replicat.C06
-open Replicat Replicat.Repo Replicat.Access List
+open Replicat Replicat.Repo Replicat.Access Replicat.CacheCmd Replicat.P18 List
 
 /-! ## unlocking -/
 
@@ -386,6 +397,97 @@ theorem shared_delete_keeps_foreign_refs (u v : User) (hfam : u.fam = v.fam) (hk
           exact absurd (by simpa using hls) hnot
         simp [h1, h2, h3, h4]
 
+/-! ## clients with persistent state: a snapshot cache directory -/
+
+/-- **A client with a cache directory runs the commands of a client without one** — every command (`list-snapshots`,
+`list-files`, `restore`, `delete`, `clean`, and `snapshot`, which never reads snapshots), whatever the directory holds: nothing,
+verified copies left by earlier commands of this or of any other key, stale entries, torn writes, other repositories' bytes. -/
+theorem cached_client_is_uncached (hv : Gen.cacheVerified = true) (c : Cache) (v : User) (s : Store) (h : WF s) (ha : Agree c s) :
+    (∀ re, loadSnapshotsC (some c) true v re s = loadSnapshots true v re s) ∧
+    (∀ sids, deletePlanC (some c) true v sids s = deletePlan true v sids s ∧
+        deleteSnapshotsC (some c) true v sids s = deleteSnapshots true v sids s) ∧
+    (cleanPlanC (some c) true v s = cleanPlan true v s ∧ cleanC (some c) true v s = clean true v s) ∧
+    (∀ sre, listSnapshotsC (some c) true v sre s = listSnapshots true v sre s) ∧
+    (∀ sre fre, listFilesC (some c) true v sre fre s = listFiles true v sre fre s) ∧
+    (∀ sre fre, restoreC (some c) true v sre fre s = restore true v sre fre s) := by
+  have hl : ∀ re, loadSnapshotsC (some c) true v re s = loadSnapshots true v re s := fun re => by
+    rw [← loadSnapshotsC_none]
+    unfold loadSnapshotsC
+    rw [loadCandidatesC_eq hv c true v re s h.2 ha]
+  have hd : ∀ sids, deletePlanC (some c) true v sids s = deletePlan true v sids s := fun sids => by
+    unfold deletePlanC; rw [hl, ← deletePlan_eq]
+  have hc : cleanPlanC (some c) true v s = cleanPlan true v s := by
+    unfold cleanPlanC; rw [hl, ← cleanPlan_eq]
+  refine ⟨hl, fun sids => ⟨hd sids, ?_⟩, ⟨hc, ?_⟩, fun sre => ?_, fun sre fre => ?_, fun sre fre => ?_⟩
+  · unfold deleteSnapshotsC; rw [hd, ← deleteSnapshots_eq]
+  · unfold cleanC; rw [hc, ← clean_eq]
+  · unfold listSnapshotsC; rw [hl, ← listSnapshots_eq]
+  · unfold listFilesC; rw [hl, ← listFiles_eq]
+  · unfold restoreC; rw [hl, ← restore_eq]
+
+/-- the same for the state transition: one mutating command of ANY user through a client with cache `c` -/
+theorem cached_step_is_uncached (hv : Gen.cacheVerified = true) (c : Cache) (s : Store) (h : WF s) (ha : Agree c s) (op : Op) :
+    stepC (some c) true s op = step true s op := by
+  cases op with
+  | snapshot u stream files ts sid => rfl
+  | delete u sids =>
+    simp only [stepC, step]
+    rw [((cached_client_is_uncached hv c u s h ha).2.1 sids).2]
+    cases deleteSnapshots true u sids s <;> rfl
+  | clean u =>
+    simp only [stepC, step]
+    rw [(cached_client_is_uncached hv c u s h ha).2.2.1.2]
+    cases clean true u s <;> rfl
+
+/-- **Independent keys, cached client**: no command of `v` changes an object of another family, whatever `v`'s cache holds. -/
+theorem independent_frame_cached (hv : Gen.cacheVerified = true) (c : Cache) (v : User) (s : Store) (h : WF s) (ha : Agree c s) (op : Op)
+    (hop : match op with | .snapshot u .. => u = v | .delete u _ => u = v | .clean u => u = v)
+    (n : Name) (hn : nameFam n ≠ some v.fam) :
+    get (stepC (some c) true s op) n = get s n := by
+  rw [cached_step_is_uncached hv c s h ha op]
+  exact independent_frame v s h op hop n hn
+
+/-- **Shared keys, cached client**: whatever `v`'s cache directory holds, `clean` by `v` keeps every chunk `u`'s snapshot
+references, a successful `delete` by `v` keeps them and the snapshot, a `delete` naming `u`'s snapshot is refused with
+"different key" before any mutation, and `list-snapshots` still shows the row without details. -/
+theorem shared_keeps_foreign_refs_cached (hv : Gen.cacheVerified = true) (c : Cache) (u v : User) (hfam : u.fam = v.fam) (hkey : u.key ≠ v.key) (s : Store)
+    (h : WF s) (ha : Agree c s) (sid : Nat) (b : Body) (hg : get s (.snap u.fam sid) = some (.snap u.fam sid b))
+    (hown : b.owner = u.key) (cc : Content) (hc : cc ∈ b.chunks) :
+    (∃ s', cleanC (some c) true v s = .ok s' ∧ get s' (.chunk v.fam cc) = get s (.chunk v.fam cc)) ∧
+    (∀ sids s', deleteSnapshotsC (some c) true v sids s = .ok s' →
+        get s' (.chunk v.fam cc) = get s (.chunk v.fam cc) ∧ get s' (.snap u.fam sid) = get s (.snap u.fam sid)) ∧
+    (∀ sids, sid ∈ sids → deletePlanC (some c) true v sids s = .error .differentKey ∧ stepC (some c) true s (.delete v sids) = s) ∧
+    (∀ sre, sre sid = true → ∃ rows, listSnapshotsC (some c) true v sre s = .ok rows ∧ (⟨sid, none, none⟩ : SnapRow) ∈ rows) := by
+  obtain ⟨_, hd, hcl, hls, _, _⟩ := cached_client_is_uncached hv c v s h ha
+  refine ⟨?_, ?_, ?_, ?_⟩
+  · rw [hcl.2]
+    exact shared_clean_keeps_foreign_refs u v hfam s h sid b hg cc hc
+  · intro sids s' hdel
+    rw [(hd sids).2] at hdel
+    exact shared_delete_keeps_foreign_refs u v hfam hkey s h sid b hg hown cc hc sids s' hdel
+  · intro sids hsid
+    rw [(hd sids).1, cached_step_is_uncached hv c s h ha]
+    exact shared_cannot_delete u v hfam hkey s h sid b hg hown sids hsid
+  · intro sre hre
+    rw [hls sre]
+    exact shared_sees_no_details u v hfam hkey s h sid b hg hown sre hre
+
+/-- **First a command that loads snapshots, then a destructive one, same client.**  Starting from any hash-ideal cache, after
+ANY snapshot-loading command of `v` under any filter (`list-snapshots`, `list-files`, `restore`, `delete`, `clean` — the cache
+becomes `cacheAfterLoad`; the other key's snapshot was loaded without its private part), `clean` / `delete` by `v` through that
+cache still keep every chunk `u`'s snapshot references: what a client remembers about a snapshot it cannot decrypt never makes
+the snapshot's chunk list count less. -/
+theorem shared_destructive_after_load_keeps_foreign_refs (hv : Gen.cacheVerified = true) (B : Fam → Nat → Body) (c : Cache) (u v : User) (hfam : u.fam = v.fam)
+    (hkey : u.key ≠ v.key) (s : Store) (h : WF s) (hB : Ideal B s) (hcB : Ideal B c) (re : Nat → Bool)
+    (sid : Nat) (b : Body) (hg : get s (.snap u.fam sid) = some (.snap u.fam sid b)) (hown : b.owner = u.key)
+    (cc : Content) (hc : cc ∈ b.chunks) :
+    (∃ s', cleanC (some (cacheAfterLoad c true v re s)) true v s = .ok s' ∧ get s' (.chunk v.fam cc) = get s (.chunk v.fam cc)) ∧
+    (∀ sids s', deleteSnapshotsC (some (cacheAfterLoad c true v re s)) true v sids s = .ok s' →
+        get s' (.chunk v.fam cc) = get s (.chunk v.fam cc) ∧ get s' (.snap u.fam sid) = get s (.snap u.fam sid)) := by
+  have ha : Agree (cacheAfterLoad c true v re s) s := agree_of_ideal (ideal_cacheAfterLoad hcB hB) hB
+  have := shared_keeps_foreign_refs_cached hv _ u v hfam hkey s h ha sid b hg hown cc hc
+  exact ⟨this.1, this.2.1⟩
+
 /-! ## the hypotheses are not vacuous, and what is outside the quantifier -/
 
 /-- a hand-made key file with a plaintext private section unlocks with ANY password (outside "key graphs built by init and
@@ -416,5 +518,23 @@ example : ∃ rows, listSnapshots true ⟨2, 1⟩ (fun _ => true) exStore = .ok 
 
 example : deletePlan true ⟨3, 2⟩ [1] exStore = .error .notAvailable :=
   (independent_cannot_delete ⟨3, 2⟩ exStore exStore_wf [1] 1 (by simp) (by decide)).2.1 (by decide)
+
+/-- the shared user ⟨2,1⟩ through a client whose cache directory is warm (after a `list-snapshots` that saw the owner's snapshot
+#1 without its private part, and its own #2): `clean` deletes nothing, `delete [2]` removes only chunk 7, `delete [1]` is refused -/
+example :
+    let c := cacheAfterLoad [] true ⟨2, 1⟩ (fun _ => true) exStore
+    c.map (·.1) = [.snap 1 1, .snap 1 2] ∧
+    cleanPlanC (some c) true ⟨2, 1⟩ exStore = .ok [] ∧
+    (deletePlanC (some c) true ⟨2, 1⟩ [2] exStore).toOption.map (fun p => (p.snaps, p.chunks)) = some ([.snap 1 2], [.chunk 1 7]) ∧
+    (deletePlanC (some c) true ⟨2, 1⟩ [1] exStore).toOption.isNone := by
+  decide
+
+/-- the other hypotheses of the cached-client theorems are satisfiable (a torn entry for #2 in the shared user's directory; the
+warm case is the `decide` example above) -/
+example (hv : Gen.cacheVerified = true) :
+    ∃ s', cleanC (some [(.snap 1 2, .blob 0)]) true ⟨2, 1⟩ exStore = .ok s' ∧ get s' (.chunk 1 6) = get exStore (.chunk 1 6) :=
+  (shared_keeps_foreign_refs_cached hv [(.snap 1 2, .blob 0)] ⟨1, 1⟩ ⟨2, 1⟩ rfl (by decide) exStore exStore_wf
+    (by intro f sid b b' h _; simp only [Repo.get, find?_cons, find?_nil] at h; split at h <;> simp at h)
+    1 ⟨1, 10, [5, 6], [⟨1, 1, [5, 6]⟩]⟩ (by decide) rfl 6 (by simp)).1
 
 end Replicat.C06
